@@ -474,6 +474,34 @@ def h_two_receivers(ctx, which):
         return "split@%d" % k
 
 
+def h_burst(ctx, which, n):
+    """A long burst: n observed-frame messages in one read, nobody consuming in between.  Every one of them is
+    delivered, in order (the receiver and its queues have no capacity that silently drops the oldest)."""
+    from harness import rigs
+    with _patched(ctx):
+        p = S.DriverLubaRs232.LubaProtocol() if which == "luba" else S.DriverSCIRS232.SCIRS232Protocol()
+        child = p.new_dali_rx_queue() if hasattr(p, "new_dali_rx_queue") else S.DistributorQueue(p.queue_rx_dali)
+        k0 = ctx.fresh("first_level", 0, 100)
+        stream = []
+        for i in range(n):
+            fb = [0x04 | ((i & 31) << 1) & 0x7E, k0 + i]
+            stream += rigs.luba_event_rx(fb) if which == "luba" else rigs.sci_frame(0x13, 0, fb[0], fb[1])
+        st, r = call(p.data_received, stream)
+        tag = "%s-burst" % which
+        if st == "exc":
+            ctx.fail("receiver raised %r" % (r,), key=tag + "/raised:" + type(r).__name__)
+            return "raised"
+        got = []
+        while child.qsize():
+            got.append(child.get_nowait())
+        ctx.prove(len(got) == n, "%d of %d observed commands delivered" % (len(got), n), key=tag + "/count")
+        for i, g in enumerate(got[:n]):
+            v = g.data if isinstance(g, Decoded) else g.frame.as_integer
+            ctx.prove(E.eq(v & 0xFF, k0 + i), "delivery %d is out of order or not the frame observed" % i,
+                      key=tag + "/order")
+        return "n=%d" % len(got)
+
+
 def h_observed_real(ctx, which, bits):
     """A well-formed 'frame observed on the bus' message carrying any 16- or 24-bit frame, through the
     receiver with the library's real decoder behind it (no stub): exactly one command carrying exactly those
@@ -510,6 +538,7 @@ def cases(tier):
     cs = []
     for which in ("luba", "sci"):
         cs.append(Case("%s-two-receivers" % which, h_two_receivers, {"which": which}))
+        cs.append(Case("%s-burst-%d" % (which, 80), h_burst, {"which": which, "n": 80}))
         for bits in (16, 24):
             cs.append(Case("%s-observed-real-%d" % (which, bits), h_observed_real, {"which": which, "bits": bits}))
     for s in range(5):
